@@ -600,6 +600,10 @@ struct Extractor : public RecursiveASTVisitor<Extractor> {
         json::Object PO;
         PO["n"] = P->getNameAsString();
         PO["t"] = typeStr(P->getType());
+        // a default argument changes what a shorter call means: rules must see it
+        if (P->hasDefaultArg() && !P->hasUninstantiatedDefaultArg() && !P->hasUnparsedDefaultArg() &&
+            P->getDefaultArg())
+          PO["default"] = ser(P->getDefaultArg(), 1);
         Ps.push_back(std::move(PO));
       }
       F["params"] = std::move(Ps);
